@@ -26,9 +26,11 @@ EXCLUDED_PANIC_FNS = {
     "rand_jitter::error::TimerError::description": "unreachable!() on the doc(hidden) __Nonexhaustive variant, which no API produces",
     "rand_jitter::platform::get_nstime": "SystemTime before the UNIX epoch: a broken system clock is not a timer reading of the property's domain",
 }
-# vacuity guard only: about 80% of the edges counted on the reference tree (300/202/124/45/13), so that an edit which legitimately
-# removes a few checked operations is not reported
-FLOORS = {"rand_xoshiro": 240, "rand_hc": 160, "rand_isaac": 99, "rand_jitter": 36, "rand_xorshift": 10}
+# vacuity guards only. Checked operations come and go with ordinary refactoring (a shift written as `>>= 1`, a loop over an
+# iterator instead of an index, Wrapping<T> instead of `+`), so the floor on assert edges is a quarter of the reference count
+# (300/202/124/45/13); what must not shrink silently is the set of API roots that were evaluated.
+FLOORS = {"rand_xoshiro": 75, "rand_hc": 50, "rand_isaac": 30, "rand_jitter": 11, "rand_xorshift": 3}
+ROOT_FLOORS = {"rand_xoshiro": 130, "rand_hc": 11, "rand_isaac": 32, "rand_jitter": 7, "rand_xorshift": 8}  # reference: 165/14/41/9/10
 
 
 def roots_of(crate):
@@ -283,4 +285,5 @@ def run(chk, tier, only_crate=None):
                        sample={"panic_site": fnn, "documented": documented})
             if config == "default":
                 chk.floor("R0", "assert edges in %s" % cname, nass, FLOORS[cname])
+                chk.floor("R0", "API roots evaluated in %s" % cname, nroots, ROOT_FLOORS[cname])
     chk.trusted_base = TRUSTED
